@@ -824,8 +824,8 @@ def _tamper_child(sc, base, target, ver, mutated):
             for rid in sorted(post["revs"]):
                 if rid not in src["revs"]:
                     return ("silent", "revision %r, which the source does not have, was installed" % rid)
-                if post["revs"][rid] != src["revs"][rid]:
-                    return ("silent", "revision %s was installed with different metadata" % rid.decode())
+                # (the yardstick is the testament: what it does not attest - sub-second timestamps, the
+                # recorded inventory sha1 - can change unnoticed by design, see C41)
                 try:
                     if testament_text(T, rid) != testament_text(repo, rid):
                         return ("silent", "revision %s was installed with a different testament" % rid.decode())
@@ -982,7 +982,17 @@ def do_merge(sc, base, target, this, ver, data, out):
         else:
             diff = sorted(k for k in set(res[0][0]) | set(res[1][0]) if res[0][0].get(k) != res[1][0].get(k))
             what += ": paths %r, conflicts %r / %r, pending %r / %r" % (diff[:4], res[0][1][:3], res[1][1][:3], res[0][2], res[1][2])
-        out["viol"].append((case, what, None))
+        fam = None
+        if isinstance(res[1], str) and res[1].startswith("raised TestamentMismatch") and not isinstance(res[0], str):
+            # the bundle could not be installed: same input family as a plain install of it
+            src = sc["state"]
+            ids = src_ancestry(src, target) - (src_ancestry(src, base) if base != NULL else set())
+
+            class _E(Exception):
+                pass
+            _E.__name__ = "TestamentMismatch"
+            fam = classify_install_failure(ver, _E(), sc["by_id"], ids, base, target)
+        out["viol"].append((case, what, fam))
 
 
 # ------------------------------------------------------------------ scenario (runs in a worker process)
